@@ -253,3 +253,42 @@ Proof.
   - intros id c H. destruct (number_from_ids 1 cls id c H) as [H1 [_ H3]]. split; [exact H1|exact H3].
   - intros i c H. exact (number_from_nth 1 cls i c H).
 Qed.
+
+(* ---- requester and acceptor together -------------------------------------------------------- *)
+(* the requester's proposal for its configured contexts *)
+Definition proposals_of (tss : list bytes) (ctxs : list (N * bytes)) : list proposal :=
+  map (fun c => mkprop (fst c) (snd c) tss) ctxs.
+
+Lemma find_by_id (all : list (N * bytes)) : NoDup (map fst all) ->
+  forall id c, In (id, c) all -> find (fun x => fst x =? id) all = Some (id, c).
+Proof.
+  induction all as [|[i d] r IH]; intros Hnd id c Hin; [contradiction|].
+  cbn [map fst] in Hnd. inversion Hnd as [|x l Hni Hnd']; subst.
+  cbn [find fst]. destruct (N.eqb_spec i id) as [->|Hne].
+  - destruct Hin as [H|H]; [injection H as ->; reflexivity|].
+    exfalso. apply Hni. apply in_map_iff. exists (id, c). split; [reflexivity|exact H].
+  - destruct Hin as [H|H]; [injection H as -> ->; contradiction|]. apply IH; assumption.
+Qed.
+
+(* after negotiation both sides hold the same table of usable presentation contexts: what the requester
+   regards as usable is exactly what the acceptor will serve — same ids, same abstract syntaxes, same
+   transfer syntaxes, same order *)
+Theorem both_sides_agree (cfg : acfg) (tss : list bytes) (all : list (N * bytes)) : NoDup (map fst all) ->
+  forall ctxs, incl ctxs all ->
+  usable all (answers cfg (proposals_of tss ctxs))
+  = served_table (proposals_of tss ctxs) (answers cfg (proposals_of tss ctxs)).
+Proof.
+  intros Hnd. induction ctxs as [|[id c] r IH]; intros Hincl; [reflexivity|].
+  assert (Hin : In (id, c) all) by (apply Hincl; left; reflexivity).
+  assert (Hr : incl r all) by (intros x Hx; apply Hincl; right; exact Hx).
+  cbn [proposals_of map answers usable flat_map served_table fst snd].
+  fold (proposals_of tss r). fold (answers cfg (proposals_of tss r)).
+  change (flat_map _ (answers cfg (proposals_of tss r))) with (usable all (answers cfg (proposals_of tss r))).
+  rewrite (IH Hr).
+  set (p := mkprop id c tss). unfold served_entry.
+  assert (Hid : an_id (answer_one cfg p) = id).
+  { unfold answer_one. destruct (mem_b _ _); [destruct (first_supported _ _)|]; reflexivity. }
+  rewrite Hid. destruct (an_result (answer_one cfg p) =? 0).
+  - rewrite (find_by_id all Hnd id c Hin). reflexivity.
+  - reflexivity.
+Qed.
